@@ -10,7 +10,8 @@ HOT = 1024
 HOT_ADDR = DATA_ADDR + HOT_OFF
 CODE_ADDR = 0x30000000
 REGS = ['eax', 'ecx', 'edx', 'ebx', 'esp', 'ebp', 'esi', 'edi']
-FLAG_BITS = {'cf': 0, 'pf': 2, 'af': 4, 'zf': 6, 'nf': 7, 'df': 10, 'of': 11}
+ARITH_FLAGS = ('cf', 'pf', 'af', 'zf', 'nf', 'df', 'of')
+FLAG_BITS = {'cf': 0, 'pf': 2, 'af': 4, 'zf': 6, 'nf': 7, 'df': 10, 'of': 11, 'ac': 18, 'i_d': 21}      # ac / i_d are only ever set by the pushf probes of C08
 
 
 def paths():
